@@ -4,6 +4,7 @@ import SqfModel.VM.Sched
 import SqfModel.Config
 import SqfModel.Api
 import SqfModel.Control
+import SqfModel.Pbo
 import Driver.Proto
 import Std.Data.HashMap
 /-!
@@ -369,6 +370,32 @@ def verbCtl3 (e : Env) (f : List (List Nat)) : List Nat :=
     str "ctl=" ++ joinWith [44] (o.2.2.map ctlResName) ++ str " exec=" ++ ctlResName o.2.1 ++ str " state=" ++ Sqf.VM.stateName o.1.state ++
       str " contexts=" ++ natStr (match o.1.ctx with | some _ => 1 | none => 0) ++ str " | tr=" ++ tr
 
+/-! ### pbo -/
+
+def hexOf (bs : List Nat) : List Nat :=
+  if bs.isEmpty then str "-" else bs.flatMap (fun c => [(hexDigit (c / 16)).toNat, (hexDigit (c % 16)).toNat])
+
+/-- `is_invalid()`: a name (or key) made of question marks only marks a deleted header -/
+def allQuestion (n : List Nat) : Bool := !n.isEmpty && n.all (· == 63)
+
+def packingEnum (m : Nat) : Nat :=
+  if m == 0x456e6372 then 1 else if m == 0x43707273 then 2 else if m == 0x56657273 then 3 else 0
+
+def verbPbo (f : List (List Nat)) : List Nat :=
+  let file := f.headD []
+  if (f[1]?).getD [] == str "absent" then str "good=0"
+  else match Sqf.Pbo.parse file with
+  | none => str "good=0"
+  | some a =>
+    let props := a.props.filter (fun p => !allQuestion p.1)
+    let files := a.entries.filter (fun en => !allQuestion en.name)
+    let firstNamed (n : List Nat) : Option Sqf.Pbo.Entry := files.find? (fun en => en.name == n)
+    str "good=1 props=" ++ props.flatMap (fun p => hexOf p.1 ++ str "=" ++ hexOf p.2 ++ str ";") ++
+    str " files=" ++ files.flatMap (fun en => hexOf en.name ++ str ":" ++ natStr en.size ++ str ":" ++ natStr (packingEnum en.method) ++ str ";") ++
+    str " data=" ++ files.flatMap (fun en => (match firstNamed en.name with
+      | some en' => hexOf (Sqf.Pbo.entryBytes file en')
+      | none => str "!") ++ str ";")
+
 def handle (e : Env) (verb : String) (f : List (List Nat)) : List Nat :=
   if verb == "asm" then verbAsm e f
   else if verb == "lex" then verbLex f
@@ -380,6 +407,7 @@ def handle (e : Env) (verb : String) (f : List (List Nat)) : List Nat :=
   else if verb == "api" then verbApi e f
   else if verb == "ctl" then verbCtl e f
   else if verb == "ctl3" then verbCtl3 e f
+  else if verb == "pbo" then verbPbo f
   else str "bad-verb"
 
 partial def loop (e : Env) (h : IO.FS.Stream) (out : IO.FS.Stream) : IO Unit := do
